@@ -54,7 +54,19 @@ def make_ids():
 def make_data(kind: str, shape, seed: int, rank: int, dtype: str = "float"):
     """data in the requested holder and its dense float reference.  dtype "int": integer-valued data stored as int64
     (count-like data; the element type is a presentation - the fit must not depend on it)"""
-    X, Xd = _make_data(kind, shape, seed, rank, integral=(dtype == "int"))
+    X, Xd = _make_data(kind, shape, seed, rank, integral=(dtype in ("int", "int8")))
+    if dtype == "int8" and kind in ("dense", "sparse"):
+        # counts stored in 8 bits: every entry fits, sums of squares do not
+        import bind
+        ttb = bind.ttb
+        small = np.clip(np.round(Xd.data), -100, 100)
+        Xd = ttb.tensor(small.astype(float))
+        Xi = ttb.tensor(small.astype(np.int8))
+        X = Xi if kind == "dense" else Xi.to_sptensor()
+        if kind == "sparse":
+            # the sparse holder keeps the sparsity pattern _make_data chose: its dense reference is Xd itself
+            Xd = ttb.tensor(X.full().data.astype(float))
+        return X, Xd
     if dtype == "int" and kind in ("dense", "sparse"):
         import bind
         ttb = bind.ttb
@@ -113,7 +125,8 @@ def np_mttkrp(Xa: np.ndarray, U, n: int) -> np.ndarray:
 
 
 def e9(x: float) -> int:
-    return int(min(abs(float(x)) * 1e9, 2e9))
+    x = float(x)
+    return 2000000000 if x != x else int(min(abs(x) * 1e9, 2e9))
 
 
 def run_config(c: dict) -> dict:
@@ -214,7 +227,7 @@ def run_config(c: dict) -> dict:
     if c["init"] == "given" and c["kind"] != "sum":
         for k in range(1, c["maxiters"] + 1):
             rk, Mk, _, outk, _, _, _ = run(k, 0.0, 0, c["fixsigns"], "given")
-            tr["ev"].append({"op": "truncated", "args": {"k": k, "calls": rk.calls, "fit": int(round(outk["fit"] * 1e9))}})
+            tr["ev"].append({"op": "truncated", "args": {"k": k, "calls": rk.calls, "fit": (int(round(outk["fit"] * 1e9)) if np.isfinite(outk["fit"]) and abs(outk["fit"]) < 2 else -2000000000)}})
     return tr
 
 
@@ -252,7 +265,7 @@ def configs(cfgs: List[dict], tier: str) -> List[dict]:
                         "seed": core.seed() + i % 7, "dimorder": c["dimorder"], "optdims": c["optdims"],
                         "maxiters": c["maxiters"], "stoptol": rr.choice([0.0, 1e-4]), "printitn": rr.choice([0, 1, 2]),
                         "fixsigns": rr.choice([False, True]), "init": init,
-                        "dtype": rr.choice(["float", "float", "int"]) if kind in ("dense", "sparse") else "float",
+                        "dtype": rr.choice(["float", "float", "int", "int8"]) if kind in ("dense", "sparse") else "float",
                         "scale2": rr.choice([0, 0, -40, 30])})
             i += 1
     return out
